@@ -13,6 +13,9 @@ CLAIMS = {
     'C08': dict(
         text="Decides the structural core: inspection methods take &self on structs without interior mutability; for the four guard types the number of words appended on creation equals the number popped on drop for every aligned predicate valuation (loop-summarised effect counting), creation/drop/seal touch only the word buffer, seal() writes exactly num_seal_words() words, and each temporary view is produced by the same source as the final export. Holds for all histories by induction (each inspection is a no-op on coder state). Not decided: bit arithmetic inside write_bit/read_bit; backend failure in the middle of a guard constructor (outside the quantifier).",
         tech="path-sensitive effect counting with loop summarisation and predicate alignment; receiver-kind / interior-mutability scan; compile-fail witnesses (thorough)"),
+    'C18': dict(
+        text="Decides the structural half of the size/emptiness queries: ANS num_words() equals remaining(bulk) plus the symbolic number of words into_compressed appends; range-encoder num_words() equals remaining(bulk) + num_seal_words() and seal() writes exactly num_seal_words() words on every aligned path pair; num_bits = BITS*num_words; the 'fresh/empty' sentinel compared by is_empty/seal/num_seal_words/maybe_exhausted is the constant the constructors store and clear() restores; diagnostic overrides are structural clones of the trait defaults and no possibly-zero power of two reaches a divisor. Not decided: num_valid_bits, maybe_exhausted after the last symbol, bit-coder len(), numeric values of entropy/KL.",
+        tech="affine agreement of query return values with loop-summarised export effect counts; sentinel atom agreement; structural (DAG) equality of overrides; two-point constant rule for wrapping_pow2"),
 }
 
 NA = {
